@@ -8,7 +8,7 @@ C19-LIMITS    the depth limits are positive constants
 from jv import flow
 from jv.facts import Program, AnalysisBroken
 from jv.callgraph import CallGraph
-from jv.util import is_ref, is_mem, strip_casts
+from jv.util import is_ref, is_mem, strip_casts, wraps
 
 EXPLANATION = (
     "Whole-program call graph (direct calls plus function pointers resolved through record fields, tables and "
@@ -433,6 +433,217 @@ def _travstack_rule(chk, prog):
         raise AnalysisBroken("push_traversal_node: the store through ++janet_vm.traversal was not found")
 
 
+def _countdown_rule(chk, prog):
+    """Some guards count DOWN and stop at exactly zero (`if (depth == 0)`, `S->depth--; if (S->depth == 0)`): they bound the
+    recursion only if they start from a positive number.  A start value of 0 or less is decremented past zero and the
+    test never fires.  Every in-tree call that feeds such a counter must pass a value known to be >= 1 (a positive
+    constant, or a variable clamped by `if (v < 1) v = <positive constant>`)."""
+    rule = "C19-COUNTDOWN"
+    chk.rule(rule, "every start value handed to an equality-tested countdown depth guard is known to be >= 1")
+    entries = {}      # function name -> index of the parameter that becomes the start value
+    funcs = dict((f.name, f) for f in prog.all_funcs())
+    # (a) parameter tested == 0 and passed on minus one to the same function
+    for fn in prog.all_funcs():
+        ps = [p["n"] for p in fn.params]
+        for i, pn in enumerate(ps):
+            tested = any(x.k == "bin" and x.op == "==" and is_ref(strip_casts(x.kids[0]), pn) and strip_casts(x.kids[1]).v == 0 for x in fn.nodes)
+            stepped = any(c.callee == fn.name and len(c.args) > i and strip_casts(c.args[i]).k == "bin" and strip_casts(c.args[i]).op == "-"
+                          and is_ref(strip_casts(strip_casts(c.args[i]).kids[0]), pn) and strip_casts(strip_casts(c.args[i]).kids[1]).v == 1
+                          for c in fn.calls(fn.name))
+            if tested and stepped:
+                entries[fn.name] = i
+    # (b) record field decremented and tested == 0; functions that initialise it from a parameter
+    fields = set()
+    for fn in prog.all_funcs():
+        dec = set(x.kids[0].field for x in fn.nodes if x.k == "un" and x.op in ("pre--", "post--") and x.kids[0].k == "mem")
+        tst = set(strip_casts(x.kids[0]).field for x in fn.nodes if x.k == "bin" and x.op == "==" and strip_casts(x.kids[0]).k == "mem"
+                  and strip_casts(x.kids[1]).v == 0)
+        for f in dec & tst:
+            rec = [x.kids[0].rec for x in fn.nodes if x.k == "un" and x.op in ("pre--", "post--") and x.kids[0].k == "mem" and x.kids[0].field == f]
+            fields.add((rec[0], f))
+    for fn in prog.all_funcs():
+        ps = [p["n"] for p in fn.params]
+        for x in fn.nodes:
+            if x.k == "asg" and x.op == "=" and x.kids[0].k == "mem" and (x.kids[0].rec, x.kids[0].field) in fields:
+                r = strip_casts(x.kids[1])
+                if is_ref(r) and r.name in ps:
+                    entries[fn.name] = ps.index(r.name)
+    if len(entries) < 2:
+        raise AnalysisBroken("countdown guards not recognised (found %s)" % sorted(entries))
+    # pass-through wrappers
+    changed = True
+    while changed:
+        changed = False
+        for fn in prog.all_funcs():
+            ps = [p["n"] for p in fn.params]
+            for c in fn.nodes:
+                if c.k == "call" and c.callee in entries and c.callee != fn.name and len(c.args) > entries[c.callee]:
+                    a = strip_casts(c.args[entries[c.callee]])
+                    if is_ref(a) and a.name in ps and fn.name not in entries and not any(
+                            y.k == "asg" and is_ref(y.kids[0], a.name) for y in fn.nodes):
+                        entries[fn.name] = ps.index(a.name)
+                        changed = True
+    n = 0
+    for fn in prog.all_funcs():
+        sites = [c for c in fn.nodes if c.k == "call" and c.callee in entries and c.callee != fn.name
+                 and len(c.args) > entries[c.callee]]
+        ps = [p["n"] for p in fn.params]
+        sites = [c for c in sites if not (fn.name in entries and is_ref(strip_casts(c.args[entries[c.callee]]), ps[entries[fn.name]]))]
+        if not sites:
+            continue
+        chk.analysed(fn)
+
+        def transfer(st, x):
+            tgt = None
+            if x.k == "asg" and is_ref(x.kids[0]):
+                tgt, rhs = x.kids[0].name, (x.kids[1] if x.op == "=" else None)
+            elif x.k == "vardecl":
+                tgt, rhs = x.name, (x.kids[0] if x.kids else None)
+            if tgt:
+                st = frozenset(f for f in st if f != ("pos", tgt))
+                if rhs is not None and strip_casts(rhs).v is not None and strip_casts(rhs).v >= 1:
+                    st = st | {("pos", tgt)}
+            return st
+
+        def edge(st, blk, succ, cond, truth):
+            c = flow.compare_of(cond, truth)
+            if c is None or c[2] is None:
+                return st
+            l, op, r = strip_casts(c[0]), c[1], strip_casts(c[2])
+            if is_ref(l) and r.v is not None:
+                if (op == ">=" and r.v >= 1) or (op == ">" and r.v >= 0) or (op == "==" and r.v >= 1):
+                    return st | {("pos", l.name)}
+            return st
+        IN, OUT, T = flow.forward_paths(fn, frozenset(), transfer, edge=edge)
+        for x, S in flow.states_at(fn, IN, T):
+            if x not in sites:
+                continue
+            n += 1
+            chk.instance(rule)
+            a = strip_casts(x.args[entries[x.callee]])
+            ok = (a.v is not None and a.v >= 1) or (is_ref(a) and all(("pos", a.name) in ps_ for ps_ in S))
+            if ok:
+                chk.ok(rule, "%s: %s(...%s...) starts the countdown from a positive value" % (fn.name, x.callee, a.text()))
+            else:
+                chk.violation(rule, fn.tu.name, fn.name, "%s:%s" % (x.callee, a.text()[:20]), x.loc,
+                              "%s is started with depth `%s`, which is not known to be >= 1 here; its guard stops only at exactly 0 "
+                              "after decrementing, so a start of 0 (or less) recurses once per nesting level of the value until the "
+                              "C stack overflows" % (x.callee, a.text()[:30]))
+    chk.floor(rule, 4, n)
+
+
+def _step_rule(chk, prog):
+    """Depth carried in a parameter (marshal_one's flags, print_jdn_one's depth ...) bounds the recursion only if the
+    value really changes around every cycle: following the parameter through the call graph, every cycle of calls must
+    contain at least one edge that passes it stepped (p + 1 / p - 1).  A recursive edge that hands the depth on
+    unchanged (say, for prototype links) is unbounded recursion along that edge."""
+    rule = "C19-STEP"
+    chk.rule(rule, "every call cycle through a parameter-carried depth counter steps the counter on at least one edge")
+    LIMITS = ("JANET_RECURSION_GUARD", "JANET_MAX_PROTO_DEPTH", "JANET_MAX_MACRO_EXPAND")
+    INT_T = ("int", "int32_t", "uint32_t", "unsigned int")
+    LEAF_WRAPS = ("janet_wrap_string", "janet_wrap_symbol", "janet_wrap_keyword", "janet_wrap_number", "janet_wrap_integer",
+                  "janet_wrap_nil", "janet_wrap_true", "janet_wrap_false", "janet_wrap_boolean", "janet_csymbolv", "janet_ckeywordv",
+                  "janet_cstringv")
+    funcs = {}
+    for f in prog.all_funcs():
+        funcs.setdefault(f.name, f)
+    edges = {}       # (F, p) -> list of ((G, q), weight, call node)
+    seeds = set()
+    zero_tested = set()
+    for fn in prog.all_funcs():
+        ps = [p["n"] for p in fn.params]
+        if not ps:
+            continue
+        for x in fn.nodes:
+            if x.k == "bin" and x.op in ("==", "!=", "<", "<=", ">", ">="):
+                for side, other in ((x.kids[0], x.kids[1]), (x.kids[1], x.kids[0])):
+                    o = strip_casts(other)
+                    e = strip_casts(side)
+                    if e.k == "bin" and e.op == "&" and e.kids[1].v is not None:
+                        e = strip_casts(e.kids[0])
+                    if is_ref(e) and e.name in ps and e.d.get("d") == "parm" and (e.t or "").replace("const ", "") in INT_T and (
+                            any(m in LIMITS for m in o.macro_names()) or (o.v == 0 and x.op == "==")):
+                        (seeds if any(m in LIMITS for m in o.macro_names()) else zero_tested).add((fn.name, e.name))
+        for c in fn.nodes:
+            if c.k != "call" or c.callee not in funcs:
+                continue
+            g = funcs[c.callee]
+            gps = [p["n"] for p in g.params]
+            # the value handed down is a string/symbol/number: a leaf for every traversal, this edge cannot come back
+            if any(wraps(a, w) for a in c.args for w in LEAF_WRAPS):
+                continue
+            for i, a in enumerate(c.args[:len(gps)]):
+                a = strip_casts(a)
+                w = 0
+                base = a
+                if a.k == "bin" and a.op in ("+", "-") and strip_casts(a.kids[1]).v == 1:
+                    base, w = strip_casts(a.kids[0]), 1
+                if base.k == "bin" and base.op == "&" and base.kids[1].v is not None:
+                    base = strip_casts(base.kids[0])
+                if is_ref(base) and base.name in ps and base.d.get("d") == "parm" and (base.t or "").replace("const ", "") in INT_T:
+                    edges.setdefault((fn.name, base.name), []).append(((g.name, gps[i]), w, c))
+    # a parameter tested `== 0` is a countdown counter only if it is also handed on minus one
+    for a in zero_tested:
+        if any(w == 1 for (_, w, _) in edges.get(a, ())):
+            seeds.add(a)
+    # family: nodes connected to a seed
+    und = {}
+    for a, outs in edges.items():
+        for (b, w, c) in outs:
+            und.setdefault(a, set()).add(b)
+            und.setdefault(b, set()).add(a)
+    fam = set(seeds)
+    work = list(seeds)
+    while work:
+        a = work.pop()
+        for b in und.get(a, ()):
+            if b not in fam:
+                fam.add(b)
+                work.append(b)
+    # zero-weight subgraph restricted to the family: any cycle is a violation
+    zero = {}
+    for a, outs in edges.items():
+        if a in fam:
+            for (b, w, c) in outs:
+                if w == 0 and b in fam:
+                    zero.setdefault(a, []).append((b, c))
+    n = 0
+    reported = set()
+    # count stepped edges as discharged obligations
+    for a, outs in sorted(edges.items()):
+        if a not in fam:
+            continue
+        for (b, w, c) in outs:
+            if b in fam and w == 1:
+                n += 1
+                chk.instance(rule)
+                chk.ok(rule, "%s -> %s passes %s stepped" % (a[0], b[0], a[1]))
+
+    def reach(src, dst):
+        seen, work = set(), [src]
+        while work:
+            u = work.pop()
+            for (v, c) in zero.get(u, ()):
+                if v == dst:
+                    return True
+                if v not in seen:
+                    seen.add(v)
+                    work.append(v)
+        return False
+    for a, outs in sorted(zero.items()):
+        for (b, c) in outs:
+            if (b == a or reach(b, a)) and c.id not in reported:
+                reported.add(c.id)
+                n += 1
+                chk.instance(rule)
+                fn = funcs[a[0]]
+                chk.violation(rule, fn.tu.name, a[0], "%s->%s:%s" % (a[0], b[0], "/".join(x.text().replace(" ", "")[:24] for x in c.args[1:3])), c.loc,
+                              "`%s` hands the depth counter `%s` on unchanged and the call can come back to %s without any stepped edge: "
+                              "recursion along this edge is not counted, so arbitrarily deep input overflows the C stack" % (
+                                  c.text()[:70], a[1], a[0]))
+    chk.floor(rule, 30, n)
+
+
 def run(chk):
     prog = Program.load("default")
     cg = CallGraph(prog)
@@ -440,3 +651,5 @@ def run(chk):
     _deinit_arms(chk, prog, cg)
     _nonrec_rule(chk, prog, cg, comps)
     _travstack_rule(chk, prog)
+    _countdown_rule(chk, prog)
+    _step_rule(chk, prog)
